@@ -94,14 +94,21 @@ func (hs *clientHandshakeStateTLS13) decompressCert(m utlsCompressedCertificateM
 		return nil, fmt.Errorf("unsupported algorithm (%d)", m.algorithm)
 	}
 
+	if m.uncompressedLength > maxHandshakeCertificateMsg {
+		// Do not allocate what no Certificate message may occupy anyway.
+		c.sendAlert(alertBadCertificate)
+		return nil, fmt.Errorf("declared uncompressed len (%d) exceeds the certificate message limit", m.uncompressedLength)
+	}
 	rawMsg := make([]byte, m.uncompressedLength+4) // +4 for message type and uint24 length field
 	rawMsg[0] = typeCertificate
 	rawMsg[1] = uint8(m.uncompressedLength >> 16)
 	rawMsg[2] = uint8(m.uncompressedLength >> 8)
 	rawMsg[3] = uint8(m.uncompressedLength)
 
-	n, err := decompressed.Read(rawMsg[4:])
-	if err != nil && !errors.Is(err, io.EOF) {
+	// A decompressor may return its output in several short reads (flushed or
+	// multi-block streams), so read until the buffer is full or the stream ends.
+	n, err := io.ReadFull(decompressed, rawMsg[4:])
+	if err != nil && !errors.Is(err, io.EOF) && !errors.Is(err, io.ErrUnexpectedEOF) {
 		c.sendAlert(alertBadCertificate)
 		return nil, err
 	}
@@ -111,6 +118,12 @@ func (hs *clientHandshakeStateTLS13) decompressCert(m utlsCompressedCertificateM
 		// https://datatracker.ietf.org/doc/html/rfc8879#section-4
 		c.sendAlert(alertBadCertificate)
 		return nil, fmt.Errorf("decompressed len (%d) does not match specified len (%d)", n, m.uncompressedLength)
+	}
+	var trailing [1]byte
+	if k, _ := io.ReadFull(decompressed, trailing[:]); k != 0 {
+		// The stream decompresses to more than the declared length: same rule.
+		c.sendAlert(alertBadCertificate)
+		return nil, fmt.Errorf("decompressed message is longer than specified len (%d)", m.uncompressedLength)
 	}
 	certMsg := new(certificateMsgTLS13)
 	if !certMsg.unmarshal(rawMsg) {
